@@ -300,6 +300,9 @@ def skeletons(ctx, n, which):
         "stage strings": lambda: T("start", T("stage", T("stringw", S("a")), T("transform_x86", T("strrep", S("b"), S("c"))))),
         "process-inject execute": lambda: T("start", T("process_inject", T("execute", T("createthread_special", S("a")), T("rtlcreateuserthread")))),
         "empty block + option": lambda: T("start", T("http_config"), opt("pipename", "a")),
+        "repeated identical statements": lambda: T("start", T("option", lark.Token("OPTION", "sleeptime"), T("string", lark.Token("STRING", '"5"'))), T("stage"),
+                                                   T("option", lark.Token("OPTION", "sleeptime"), T("string", lark.Token("STRING", '"5"'))), T("stage"), opt("jitter", "a"),
+                                                   T("http_get", T("uri", T("string", lark.Token("STRING", '"/x"')))), T("http_get", T("uri", T("string", lark.Token("STRING", '"/x"'))))),
         "beacon gate": lambda: T("start", T("stage", T("beacon_gate", T("comms"), T("virtualalloc")), T("name", S("a")))),
         "dns-beacon": lambda: T("start", T("dns_beacon", T("dns_idle", S("a")), T("beacon", S("b")))),
         "http-stager": lambda: T("start", T("http_stager", T("uri_x64", S("a")), T("server", T("parameter", S("b"), S("c"))))),
@@ -310,7 +313,7 @@ def skeletons(ctx, n, which):
 
 
 SKELETONS_Q = ["option", "two options", "http-get uri+header", "http-get variant", "metadata transform", "server output", "stage strings",
-               "process-inject execute", "empty block + option"]
+               "process-inject execute", "empty block + option", "repeated identical statements"]
 # (the `# dns_resolver` production is never lexed — '#' starts a comment — so no skeleton uses it)
 SKELETONS_T = SKELETONS_Q + ["beacon gate", "dns-beacon", "http-stager", "code-signer + post-ex", "http-beacon"]
 
@@ -405,9 +408,28 @@ def h_layout(which, n):
     return body
 
 
+def h_string_accepts(n):
+    """every literal whose body is valid by the definition (any characters, line feeds included; the closing quote is the first
+    quote preceded by an even number of backslashes) is ONE token of the loaded grammar's STRING terminal"""
+    def body(ctx):
+        from harness import c12 as L
+        s = sym_str("body", n)
+        if is_native():
+            text = '"%s"' % V.to_native(s)
+            if L.model_first_close(text) != len(text):
+                raise PathAbort()
+        else:
+            valid_string_body(ctx, s)
+        lit = SymStr([34] + s.cells + [34])
+        ctx.prove(L.single_token(ctx, lit), "a valid literal of %d characters is accepted as exactly one STRING token" % n)
+    return body
+
+
 def instances(tier):
     q = tier == "quick"
     out = [Instance("grammar table: every production regenerated with its own keywords", h_table(), dict(kind="table", productions=len(RULES)))]
+    for n in ((0, 1, 2, 3) if q else (0, 1, 2, 3, 4)):
+        out.append(Instance("STRING terminal accepts every valid literal body of %d characters" % n, h_string_accepts(n), dict(kind="string_terminal", chars=n), split=8))
     for which in (SKELETONS_Q if q else SKELETONS_T):
         for n in ((1, 2, 3) if q else (1, 2, 3, 4)):
             if q and n == 3 and which not in ("option", "http-get uri+header", "metadata transform"):
